@@ -152,6 +152,10 @@ def unit_frame(tier):
             goals.append((f'{meth}: coords rewritten only inside to_positions/to_displacements {foreign}', z3.BoolVal(not foreign)))
             if meth not in ('positions', 'displacements', '__getitem__', 'filter', 'split', 'to_volume', 'to_cache', '__repr__') and 'coords' in out:
                 pass
+        # a memoised query on an object that extend() mutates in place would serve stale results
+        info = tree.load('gemdat.trajectory')
+        memo = [n for n, fi in info['functions'].items() if n.startswith('Trajectory.') and any(('cache' in d) for d in fi.decorators)]
+        goals.append((f'no Trajectory method is memoised (extend mutates the object in place) {memo}', z3.BoolVal(not memo)))
         ctx.use('AST frame analysis: attribute stores on self, transitively through self.method(), super().method() and property reads')
         return goals
     u.lemma('C15.frame.write-sets', build)
@@ -234,6 +238,9 @@ def unit_getitem(tier):
             out.append(('frames start..stop-1 of the view', z3.ForAll([k, at, c], z3.Implies(
                 z3.And(k >= 0, k < b - a, at >= 0, at < N, c >= 0, c < 3), co.at(k, at, c) == frac(raw(a + k))))))
             out.append(('shape', z3.And(co.shape[0] == b - a, co.shape[1] == N)))
+            nb = new.get('base_positions')
+            out.append(('base positions of the result are its own first frame', z3.Implies(b - a >= 1, z3.ForAll([at, c], z3.Implies(
+                z3.And(at >= 0, at < N, c >= 0, c < 3), nb.at(at, c) == frac(raw(a))))) if isinstance(nb, STensor) else z3.BoolVal(False)))
             out.append(('position mode, species, lattice, time step kept', z3.BoolVal(
                 bld.get('coords_are_displacement') is False and bld.get('species') is tr.get('species') and bld.get('time_step') is st['dt'] and bld.get('lattice') is tr.get('lattice'))))
             out.append(('metadata carried over', z3.BoolVal(new.get('metadata') is tr.get('metadata'))))
@@ -432,6 +439,18 @@ def replay_sequence(inputs):
     def check(tr, v, syms, where):
         if not close(tr.positions, v):
             bad.append(f'after {where}: positions differ from the shadow view')
+        # derived queries recomputed from the shadow view (catches stale / cached results after in-place changes)
+        if len(v) >= 1 and v.shape[1] >= 1:
+            d = np.diff(v, axis=0, prepend=v[:1])
+            d = d - np.round(d)
+            cum = np.cumsum(d, axis=0)
+            try:
+                got = tr.distances_from_base_position()
+                exp = np.linalg.norm(cum @ lat, axis=-1).T
+                if got.shape != exp.shape or not np.allclose(got, exp, atol=1e-8):
+                    bad.append(f'after {where}: distances_from_base_position differ from the shadow view (shape {got.shape} vs {exp.shape})')
+            except Exception as e:
+                bad.append(f'after {where}: distances_from_base_position raised {type(e).__name__}')
         if [s.symbol for s in tr.species] != syms:
             bad.append(f'after {where}: species changed')
         if not np.allclose(tr.get_lattice().matrix, lat):
